@@ -53,8 +53,14 @@ def truth(B, cfg):
             ts = TIMES[i % len(TIMES)][o]
             if cfg.get('empty_first_output') and o == 0 and i == 0:
                 ts = []
-            meas.append([(t, B.var('y%d_%d_%d' % (i, o, j)))
-                         for j, t in enumerate(ts)])
+            m_ = [(t, B.var('y%d_%d_%d' % (i, o, j)))
+                  for j, t in enumerate(ts)]
+            if cfg.get('replicates') and m_:
+                # replicate assays: the same reading recorded twice, and a
+                # second, different reading at the same time
+                m_ = [m_[0], m_[0]] + m_[1:] + \
+                    [(m_[-1][0], B.var('yrep%d_%d' % (i, o)))]
+            meas.append(m_)
         doses = []
         if cfg['model'] == 'pk':
             for j, k in enumerate(cfg['doses'][i % len(cfg['doses'])]):
@@ -407,6 +413,14 @@ def jobs(tier):
     out.append(('posterior', 'case_posterior', dict(
         model='sym', n_out=2, ems=['Gaussian', 'Multiplicative'], n_ids=2,
         ids=['b', 'a'], empty_first_output=True, variant={}), FACADE))
+    for v in ({}, {'order': 'interleaved', 'junk': True}):
+        out.append(('posterior', 'case_posterior', dict(
+            model='sym', n_out=2, ems=['Gaussian', 'LogNormal'], n_ids=2,
+            ids=['b', 'a'], replicates=True, variant=v), FACADE))
+        out.append(('posterior', 'case_posterior', dict(
+            model='sym', n_out=1, ems=['Gaussian'], n_ids=3, ids=ids3,
+            replicates=True, units=[U('gaussian'), U('pooled')], variant=v),
+            FACADE))
     for fix in (0, 1, 2):
         out.append(('posterior', 'case_posterior', dict(
             model='sym', n_out=2, ems=['Gaussian', 'ConstantAndMultiplicative'],
@@ -457,7 +471,9 @@ BOUNDS = dict(
           'and an extra column; rows with missing value or missing time; '
           'string or integer IDs that do not sort like their order of '
           'appearance; the output-observable map in reversed key order; the '
-          'covariates as a separate block of rows in another ID order); dosed model with 3 sets of per-individual dose rows '
+          'covariates as a separate block of rows in another ID order); '
+          'replicate measurements (the same reading twice, two readings at '
+          'one time); dosed model with 3 sets of per-individual dose rows '
           '(with duration, bolus, without time, none) incl. no duration '
           'column; 7 population models (pooled, heterogeneous, non-centred, '
           'multi-dimensional, 1-2 covariates) set before or after the data; '
